@@ -71,7 +71,8 @@ class IgnoreDirectiveParser:
         with suppress(KeyError):
             return self._ignore_cache[path_str]
         try:
-            check_path = str(file_path.relative_to(self.project_root))
+            # normpath: /abs/proj/pkg/sub/../gen/b.py is pkg/gen/b.py
+            check_path = os.path.normpath(str(file_path.relative_to(self.project_root)))
         except ValueError:
             check_path = self._project_relative(file_path, path_str)
         result = any(matches_pattern(check_path, p) for p in self.repo_patterns)
@@ -133,7 +134,8 @@ def _load_repo_ignores(project_root: Path) -> list[str]:
 def _parse_thailintignore_file(ignore_file: Path) -> list[str]:
     """Parse .thailintignore file (gitignore-style)."""
     try:
-        content = ignore_file.read_text(encoding="utf-8")
+        # utf-8-sig: a byte order mark left by an editor is not part of the first pattern
+        content = ignore_file.read_text(encoding="utf-8-sig")
         return extract_patterns_from_content(content)
     except (OSError, UnicodeDecodeError) as e:
         logger.warning("Failed to read .thailintignore file %s: %s", ignore_file, e)
